@@ -26,7 +26,7 @@ def generate(tier, rng):
     cases = []
     for oi, out in enumerate(OUTS):
         for form in "pq":
-            for pre, post in (("", ""), ("a", ""), ("", "b"), ("a-", ".b")):
+            for pre, post in (("", ""), ("a", ""), ("", "b"), ("a-", ".b"), ("5$-", "-z"), ("a$ ", ""), ("$", "$"), ("x=", "%")):
                 for dq in (True, False):
                     cases.append(mk("prog", pre, form, "out%d" % oi, post, dq, out, {"gen": "e", "k": (oi, form, pre, post, dq)}))
     r = rng.fork("c11")
@@ -34,7 +34,7 @@ def generate(tier, rng):
     outs = {"o%d" % i: o for i, o in enumerate(OUTS)}
     env = gens.env_field(vars={"A": "va"}, exported={"HOME": "/h"}, cmds=outs)
     words = ["$(o1)", "`o2`", "x$(o0)y", "$(o3)$(o4)", "`o0``o1`", "$(o17)", "$(echo >)", "`a >`", "A=$(o1)", "A=`o1`", "$(o0", "$(o0))", "\"$(o5)\"",
-             "'$(o0)'", "$A", "$(o36)", "plain", "$(o20)", "$( o0 )", "$(o0 | o1)", "<<<", "$(o38)"]
+             "'$(o0)'", "$A", "$(o36)", "plain", "$(o20)", "$( o0 )", "$(o0 | o1)", "<<<", "$(o38)", "5$-$(o0)-z", "a$ $(o1)", "$$(o0)", "$(o0)\nrest", "p\n$(o0)", "$-`o1`$", "a)$(o0)(b"]
     for _ in range(n):
         k = 1 + r.below(4)
         ts = []
